@@ -37,8 +37,9 @@ pub struct OpenEventIndex {
 
 impl OpenEventIndex {
     pub fn create(id: BucketSegmentId, path: impl AsRef<Path>) -> Result<Self, EventIndexError> {
+        // The closed index keeps using this handle for lookups once the segment is sealed
         let file = OpenOptions::new()
-            .read(false)
+            .read(true)
             .write(true)
             .create_new(true)
             .open(path)?;
